@@ -13,6 +13,7 @@ RULE = ('Random interleavings of order submissions (1-4 portfolios, 1-5 quoted a
         '>=1 out-of-hours update and some batch had both sides; distinct = distinct (request kind, side) sequence.'
         ' Order ids may repeat across portfolios (fills are matched by (portfolio, id)).')
 RULE += " Per update also: every portfolio's holdings move by exactly the quantities filled in it, and across the whole account (all portfolios, sequence of delivered transactions) every sell precedes every buy."
+RULE += " 20% of the orders carry a creation time other than the broker's now (-3D ... +17h30min): submission order decides. Two directed scripts per case: an order for an asset that gets its first quote only at the fill time waits through 1-6 updates outside exchange hours (weekend included), untouched, and fills in full at the first in-hours update."
 ASSUMPTIONS = [
     'times are non-decreasing and every ordered asset has a quote (the quantifier); UTC timestamps',
     'fill order across different portfolios is not observable through the API and is only recorded',
